@@ -73,7 +73,7 @@ def run_obligations(rep: Report, modname: str, specs: list):
             if final is None:
                 ob.status, ob.replay = "inconclusive", "replay worker failed: " + (e1 or "")
             elif final["ok"]:
-                ob.status, ob.replay = "inconclusive", "counterexample did not reproduce in plain python (model/CrossHair artefact): " + json.dumps(final)[:300]
+                ob.status, ob.replay = "inconclusive", ("counterexample did not reproduce " + ("with the real environment (model artefact): " if has_real and r2 is not None else "in plain python (CrossHair artefact): ")) + json.dumps(final)[:300]
             else:
                 ob.replay = "reproduced" + (" (real environment)" if has_real else " (plain python)")
                 path = rep.write_replay({"engine": "XH", "module": modname, "call": ob.cex, "split": spec.get("split"), "env": spec.get("env"), "observed": final, "crosshair": m["message"]})
